@@ -301,7 +301,12 @@ class Array(Environment):
 #               if isinstance(self[i], Array.BorderCommand):
 #                   self.pop(i)
 
-            self.paragraphs()
+            # No quote or dash substitutions in the cells of a math array
+            array = getattr(self.parentNode, 'parentNode', None)
+            if array is not None and array.mathMode:
+                self.paragraphs(charsubs=[])
+            else:
+                self.paragraphs()
 
         @property
         def borders(self):
